@@ -62,7 +62,9 @@ THEOREMS = [
     "C01_bespoke_once",
     "C01_defaults_rendered",
     "C01_defaults_ok_sound",
-    "C01_default_tuple1_sound",
+    "C01_default_tuple1_fixed",
+    "C01_default_tuple1_prefix_sound",
+    "C01_default_tuple1_regression",
     "C01_acyclic",
     "C01_acyclic_sound",
     "C01_serde_rules_sound",
@@ -96,7 +98,6 @@ FINDING_TEXT = {
     "C01-3": "a newtype named `Ok` / `Err` captures the unqualified `Ok(..)` / `Err(..)` of the conversion templates (E0308)",
     "C01-4": "two property defaults get the same function name in `mod defaults` (sanitize(Type_prop) collides) (E0428)",
     "C01-5": "fixed arrays longer than 32 / tuples longer than 12 are accepted but serde / Debug do not cover them (E0277)",
-    "C01-16": "the default of a one-element tuple variant is rendered `E::V(x)` for the variant declared `V((T,))` (E0308)",
     "C01-7": "a definition that is a reference cycle of aliases becomes `struct A(Box<A>)`: `From<A> for Box<A>` (E0119), Deref recursion (E0055)",
     "C01-8": "an untagged enum with an array variant and a unique-items array variant of the same items gets `From<Vec<T>>` twice (E0119)",
     "C01-9": "a newtype over a replacement / conversion type `String` declared with FromStr gets `TryFrom<String>` next to `From<String>` (E0119)",
@@ -105,7 +106,6 @@ FINDING_TEXT = {
     "C01-12": "two definitions (or a titled sub-schema, or a re-added document) map to one type name: two items of that name (E0428) [= C08-F2, C16-1/2/3]",
     "C01-13": "field identifiers that differ as scalar sequences but are NFC-equal (E0124) [= C08-F4]",
     "C01-14": "containment cycle through a native type parameter (x-rust-type Option<Self>) is not cut (E0072) [= C07-2]",
-    "C01-15": "an untagged enum with two data-less variants (oneOf [null, null]) is accepted; to_stream() then fails its own assert!",
 }
 
 
@@ -255,7 +255,8 @@ def ss_enum(size, memo={}):
 def ss_supported(tag):
     """the part of the small-scope grammar typify documents as supported (README: built-in types, arrays,
     sets, tuples, objects, maps, oneOf; allOf / anyOf are documented as best effort and may reject)"""
-    return "all(" not in tag and "any(" not in tag
+    # `oneOf [null, null]` admits no instance (null matches both branches) and is rejected since aaa3535
+    return "all(" not in tag and "any(" not in tag and "nul(null)" not in tag and "one(null,null)" not in tag
 
 
 LEAF_DEF = {"type": "object", "properties": {"k": {"type": "string"}}, "required": ["k"]}
@@ -585,11 +586,6 @@ def classify(case, g, kind, codes, msgs):
     if kind in ("render-panic", "unparsable"):
         if any((not is_ident(r)) or r in RUST_KW for r in renames):
             return "C01-11"
-        if kind == "render-panic" and "VariantDetails::Simple" in case.get("_detail", ""):
-            for e in entries(g).values():
-                if e["kind"] == "enum" and e["tag"]["k"] == "untagged" and \
-                        len([v for v in e["variants"] if v["details"]["k"] == "simple"]) > 1:
-                    return "C01-15"
         return None
     codes = set(codes)
     ents = entries(g)
@@ -628,8 +624,6 @@ def classify(case, g, kind, codes, msgs):
              for e in ents.values() if e["kind"] == "enum" for v in e["variants"])
     has_default = any(p["state"]["k"] == "default" for e in ents.values() if e["kind"] == "struct" for p in e["props"]) or \
         any(e.get("default") is not None for e in ents.values() if e["kind"] in ("enum", "struct", "newtype"))
-    if t1 and has_default and codes <= {"E0308"}:
-        return "C01-16"
     if newtype_deref_cycle(ents) and codes <= {"E0119", "E0055", "E0275"}:
         return "C01-7"
     if codes <= {"E0119"} and "From<" in msg and "Vec<" in msg:
@@ -795,7 +789,7 @@ TAG_FINDINGS = {
     "idents": {"C01-11"},
     "from_variants": {"C01-8"},
     "from_tuple1": set(),          # C01-6 fixed by d9b019c: the conjunct holds for every space now
-    "default_tuple1": {"C01-16"},
+    "default_tuple1": set(),       # C01-16 fixed by 15ce314: holds for every space now
     "deref_cycle": {"C01-7"},
     "tryfrom_string": {"C01-9"},
     "acyclic": {"C01-14", "C01-10"},
@@ -805,8 +799,8 @@ TAG_FINDINGS = {
     "prelude_default": {"C01-1"},
     "prelude_vec": {"C01-2"},
     "prelude_result": {"C01-3"},
-    "untagged_simple": {"C01-15"},
-    "defaults": {"C01-16"},        # C06's expr_typed may type the tuple-variant default by its declaration too
+    "untagged_simple": set(),      # C01-15 fixed by aaa3535: such enums are rejected at add
+    "defaults": set(),
 }
 MODEL_GAPS = {"C01-13"}     # NFC normalisation of identifiers is not modelled (Props speak of scalar sequences)
 
@@ -962,7 +956,8 @@ def run(ctx):
     for r in results:
         fx = r["case"].get("expect_fixed")
         if fx and r["kind"] != fx.get("now", "ok"):
-            viol.append({"what": "regression of a fixed finding (%s): rustc rejects the generated module" % fx.get("commit"),
+            viol.append({"what": "regression of a fixed finding (%s): expected outcome `%s`, observed `%s` (typify + rustc)" % (
+                             fx.get("commit"), fx.get("now", "ok"), r["kind"]),
                          "id": r["case"]["id"], "codes": r["codes"], "messages": r["msgs"][:4], "detail": r["detail"],
                          "outcome": r["kind"], "settings": r["case"]["settings"], "steps": r["case"]["steps"]})
     wit_bad = [(r["case"]["id"], r["case"].get("expect_finding"), r.get("finding"), r["kind"]) for r in results
